@@ -73,7 +73,8 @@ def step (s : St) (line : String) : St × String :=
       | .forward key =>
         let (s', out) := doOpen s key
         -- through the agent a stopped handler is simply silent
-        (s', if out == "notrunning" then "none" else out)
+        -- and a refusal is reported as `err <code>` whether it was decided before or by the dial
+        (s', if out == "notrunning" then "none" else if out.startsWith "dialerr " then "err " ++ (out.drop 8).toString else out)
       | .reserved _ => (s, "reserved")
       | .exitTCP => (s, "none")
       | .relay => (s, "none")
